@@ -4,7 +4,8 @@ PROPS = {}
 _TRUSTED = [
     "Cosmos SDK bank keeper modelled as ledger + supply (balances and supplies of the whole universe are observed after every step)",
     "the EVM behind types.EVMKeeper is the harness's journalled ERC20 double (harness/cmd/token/evm.go): ABI-decoded "
-    "mint / burn / balanceOf, nonce bump on creation, snapshot / restore per transaction",
+    "mint / burn / balanceOf, nonce bump on creation, snapshot / restore per transaction; for the swap-to-native hook the harness plays the "
+    "contract's own part (burn of the caller's balance + SwapToNative log), which is Solidity code outside the Go module",
     "calcFeeFactor (floating point) enters the model as the table coq/Gen/TokenFeeFactor.v regenerated on every run by "
     "running the Go function for lengths 1..64",
 ]
@@ -54,12 +55,13 @@ PROPS["C10"] = dict(
          "half-way cases of the 18th digit; ratio 1, 0.4, integers 2..10, random below / above 1 with 18 decimals; all scale pairs 0..18), "
          "non-trivial = the exact output has a fractional part; stream erc20: histories of 12-34 (thorough: 12-72) messages: issue, deploy ERC20 "
          "(authority / stranger / unregistered min unit), swap to / from ERC20 (own and foreign receivers, Ethereum-only holders, blocked receiver, "
-         "amounts at balance and balance+1, ERC20 disabled, EVM double misbehaving in 7 ways), fee-token swaps over a random swap registry, mint, "
+         "amounts at balance and balance+1, ERC20 disabled, EVM double misbehaving in 7 ways), swap-to-native through the EVM PostTxProcessing hook "
+         "(receipts with the SwapToNative log of the bound contract after its simulated burn, plus foreign logs; zero amounts, invalid / blocked receivers), fee-token swaps over a random swap registry, mint, "
          "burn, update-params; non-trivial = at least one successful and one failed conversion, or a successful conversion and a successful fee swap",
     codes={1: "token-to-erc20-not-conserved", 2: "token-from-erc20-not-conserved", 3: "token-failed-conversion-changed-state",
            4: "token-swap-burn-out-of-range", 5: "token-swap-mint-exceeds-worth", 6: "token-swap-ratio-one-inexact"},
     explain={1: "swap to ERC20: native burn, sender debit and ERC20 credit are not all exactly the converted amount",
-             2: "swap from ERC20: ERC20 burn, native mint and receiver credit are not all exactly the converted amount",
+             2: "swap from ERC20 / swap-to-native hook: ERC20 burn, native mint and receiver credit are not all exactly the converted amount",
              3: "a failed conversion / message changed the native or the ERC20 side",
              4: "fee-token swap burned a negative amount or more than offered",
              5: "fee-token swap minted more than the burned amount is worth at the configured ratio and scales",
